@@ -86,6 +86,9 @@ func (e *Env) resolveType(text string) (types.Type, string) {
 		if o := types.Universe.Lookup(text); o != nil {
 			return o.Type(), vc.sorts.SortOf(o.Type())
 		}
+	case "struct{}":
+		t := types.NewStruct(nil, nil)
+		return t, vc.sorts.SortOf(t)
 	case "ref":
 		return nil, SRef
 	case "real":
@@ -490,6 +493,9 @@ func (e *Env) binary(n EBinary) TVal {
 		e.neg = !e.neg
 		lhs := e.Bool(n.X)
 		e.neg = !e.neg
+		if lhs == "false" {
+			return TVal{T: Term{"true", SBool}}
+		}
 		return TVal{T: Term{implies(lhs, e.Bool(n.Y)), SBool}}
 	case "<==>":
 		return TVal{T: Term{app("=", e.Bool(n.X), e.Bool(n.Y)), SBool}}
@@ -517,6 +523,16 @@ func (e *Env) binary(n EBinary) TVal {
 			eq = e.seqEq(a.T, b.T, proving)
 		} else {
 			eq = app("=", a.T.S, b.T.S)
+			// two integer literals: decided here (keeps rules like `instruction == OP_X ==> ...` out of the query
+			// when the instruction is a constant)
+			if x, ok1 := parseSmallInt(a.T.S); ok1 {
+				if y, ok2 := parseSmallInt(b.T.S); ok2 {
+					eq = "false"
+					if x == y {
+						eq = "true"
+					}
+				}
+			}
 		}
 		if n.Op == "!=" {
 			eq = not(eq)
@@ -705,6 +721,12 @@ func (e *Env) call(n ECall) TVal {
 			return TVal{}
 		}
 		c := e.Bool(n.Args[0])
+		if c == "true" {
+			return e.tr(n.Args[1])
+		}
+		if c == "false" {
+			return e.tr(n.Args[2])
+		}
 		a, b := e.tr(n.Args[1]), e.tr(n.Args[2])
 		return TVal{T: Term{ite(c, a.T.S, b.T.S), a.T.Sort}, Ty: a.Ty}
 	case "max", "min":
@@ -895,12 +917,38 @@ func (e *Env) call(n ECall) TVal {
 			return e.errf("lib needs a function name")
 		}
 		ns, ok := n.Args[0].(EStr)
-		if !ok || !pureLib[ns.V] {
-			return e.errf("lib: %s is not a modelled pure library function", exprString(n.Args[0]))
+		if !ok {
+			return e.errf("lib: %s is not a function name", exprString(n.Args[0]))
 		}
-		f := vc.prog.libFunc(ns.V)
-		if f == nil {
-			return e.errf("lib: function %s is not in the loaded program", ns.V)
+		var lsig *types.Signature
+		if strings.HasPrefix(ns.V, "iface:") {
+			// iface:pkg.Interface.Method of a package declared pure
+			parts := strings.Split(ns.V[6:], ".")
+			if len(parts) == 3 {
+				if tp := vc.prog.pkgByName(parts[0]); tp != nil && vc.prog.contracts.PurePkgs[tp.Path()] {
+					if tn, ok := tp.Scope().Lookup(parts[1]).(*types.TypeName); ok {
+						if it, ok := tn.Type().Underlying().(*types.Interface); ok {
+							for i := 0; i < it.NumMethods(); i++ {
+								if it.Method(i).Name() == parts[2] {
+									lsig = it.Method(i).Type().(*types.Signature)
+								}
+							}
+						}
+					}
+				}
+			}
+			if lsig == nil {
+				return e.errf("lib: %s is not an interface method of a package declared pure", ns.V)
+			}
+		} else {
+			f := vc.prog.libFunc(ns.V)
+			if f == nil {
+				return e.errf("lib: function %s is not in the loaded program", ns.V)
+			}
+			if !pureLib[ns.V] && !vc.prog.inPurePkg(f) {
+				return e.errf("lib: %s is not a modelled pure library function", ns.V)
+			}
+			lsig = f.Signature
 		}
 		var as, sorts []string
 		for _, a := range n.Args[1:] {
@@ -908,7 +956,7 @@ func (e *Env) call(n ECall) TVal {
 			as = append(as, v.T.S)
 			sorts = append(sorts, v.T.Sort)
 		}
-		res := f.Signature.Results()
+		res := lsig.Results()
 		if res.Len() < 1 {
 			return e.errf("lib: %s has no result", ns.V)
 		}
